@@ -17,6 +17,7 @@ TRACE = {
     "C15": (["P_C15"], []),
     "C16": (["P_C16"], []),
     "C17": (["P_C17"], []),
+    "C11": ([], []),
     "C19": (["P_C19"], []),
 }
 
@@ -70,6 +71,15 @@ B3 = {
 FN = {
     "C16": [dict(gen="Gen_Defaults", judge="Judge_Defaults", quick="Full = FALSE", thorough="Full = TRUE")],
     "C20": [dict(gen="Gen_Labels", judge="Judge_Labels", quick="MaxLen = 2\n  MaxKeys = 2", thorough="MaxLen = 2\n  MaxKeys = 3")],
+}
+
+# ---- fault enumeration: scenarios per tier; formulas judged on the faulted runs ----
+FAULTS = {
+    "C11": {"quick": "first-deployment,rolling-update,canary-failure-rollback,node-removal",
+            "thorough": "first-deployment,rolling-update,canary-promotion,canary-failure-rollback,node-removal,settings-change,manual-fail-command",
+            "pairs": 150, "props": ["P_C11", "P_C11f", "P_C02", "P_C07"], "invs": ["I_C13"]},
+    "C07": {"quick": "canary-failure-rollback,manual-fail-command", "thorough": "canary-failure-rollback,manual-fail-command,canary-promotion",
+            "pairs": 100, "props": ["P_C07", "P_C11f", "P_C02", "P_C05"], "invs": []},
 }
 
 RULES = {
